@@ -373,6 +373,10 @@ class VQESolver:
                 exp_op = agen.fermionic_operators.spin2_operator(n_active_mos, up_then_down=False)
             else:
                 raise ValueError('Only expectation values of N, Sz and S^2')
+            # Hard-core bosons encode electron pairs: every state of the register has Sz = 0 and S^2 = 0, and the
+            # HCB transform (defined for spin-free operators only) must not be applied to spin operators.
+            if self.qubit_mapping.upper() == "HCB" and operator in ("Sz", "S^2"):
+                return 0.
         elif isinstance(operator, FermionOperator):
             exp_op = operator
         elif isinstance(operator, QubitOperator):
